@@ -39,6 +39,7 @@ CONSTANTS
   FixGC,       \* collector only considers composed-resource watches (repair of D2)
   FixSnapshot, \* StartWatches re-reads the active informers under the controller lock (repair of D10)
   FixStopped,  \* a stopped controller refuses late watches (repair of D8)
+  FixLost,     \* StartWatches restarts a watch whose handler went with its informer even if a new informer of the kind is active (repair of D15)
   MaxStopFails \* how often removing an event handler may fail (the informer returns an error) while a controller is stopped
 
 Composed == {w \in Wids : w \notin {"xr", "rev"}}
@@ -57,13 +58,14 @@ VARIABLES
   refs,      \* composed kinds some XR of the controller references (environment)
   drefs,     \* ... those of them that only an XR that is being deleted (held by a finalizer) references: they still count
   pc, op, arg, cI, aS, used, run,   \* per caller: segment, operation, argument, controller pointer, snapshot, collector locals
+  lost,      \* per caller (ghost): the requested watches that had no live event handler when its StartWatches began
   nops,
   nfail,     \* failed handler removals so far
   bad,       \* ghost: violated step properties
   hist
 
-vars == <<ctl, ninst, srcs, nsrc, srcInst, srcWid, regs, active, cancelled, stopped, refs, drefs, pc, op, arg, cI, aS, used, run, nops, nfail, bad, hist>>
-view == <<ctl, ninst, srcs, nsrc, srcInst, srcWid, regs, active, cancelled, stopped, refs, drefs, pc, op, arg, cI, aS, used, run, nops, nfail, bad>>
+vars == <<ctl, ninst, srcs, nsrc, srcInst, srcWid, regs, active, cancelled, stopped, refs, drefs, pc, op, arg, cI, aS, used, run, lost, nops, nfail, bad, hist>>
+view == <<ctl, ninst, srcs, nsrc, srcInst, srcWid, regs, active, cancelled, stopped, refs, drefs, pc, op, arg, cI, aS, used, run, lost, nops, nfail, bad>>
 
 Insts == 1..MaxInst
 SrcIds == 1..MaxSrc
@@ -78,12 +80,13 @@ Init ==
   /\ regs = {} /\ active = {} /\ cancelled = {} /\ stopped = {} /\ refs \in SUBSET Composed /\ drefs \in SUBSET refs
   /\ pc = [p \in Procs |-> "idle"] /\ op = [p \in Procs |-> "none"] /\ arg = [p \in Procs |-> <<>>]
   /\ cI = [p \in Procs |-> 0] /\ aS = [p \in Procs |-> {}] /\ used = [p \in Procs |-> {}] /\ run = [p \in Procs |-> {}]
+  /\ lost = [p \in Procs |-> {}]
   /\ nops = [p \in Procs |-> 0] /\ nfail = 0 /\ bad = {}
   /\ hist = << [p |-> 0, op |-> "init", seg |-> 0, c |-> "", a |-> refs, r |-> "", d |-> drefs] >>
 
 Idle(p) == pc[p] = "idle" /\ nops[p] < MaxOps
 Done(p) == /\ pc' = [pc EXCEPT ![p] = "idle"] /\ nops' = [nops EXCEPT ![p] = @ + 1]
-Locals == <<cI, aS, used, run, op, arg>>
+Locals == <<cI, aS, used, run, lost, op, arg>>
 Eng == <<ctl, ninst, srcs, nsrc, srcInst, srcWid, regs, active, cancelled, stopped>>
 
 ----------------------------------------------------------------------------
@@ -137,6 +140,7 @@ SW1(p, c, ws) ==
       THEN Log(H(p, "StartWatches", 1, c, Range(ws), "err")) /\ Done(p) /\ UNCHANGED Locals
       ELSE /\ Log(H(p, "StartWatches", 1, c, Range(ws), "")) /\ pc' = [pc EXCEPT ![p] = "sw2"] /\ UNCHANGED nops
            /\ cI' = [cI EXCEPT ![p] = ctl[c]] /\ aS' = [aS EXCEPT ![p] = active]
+           /\ lost' = [lost EXCEPT ![p] = {w \in Range(ws) : srcs[ctl[c]][w] \notin regs}]
            /\ op' = [op EXCEPT ![p] = c] /\ arg' = [arg EXCEPT ![p] = ws] /\ UNCHANGED <<used, run>>)
   /\ UNCHANGED Eng /\ UNCHANGED <<refs, drefs, bad>>
 
@@ -146,7 +150,7 @@ RECURSIVE StartAll(_, _, _, _, _, _, _, _)
 StartAll(ws, i, snap, s, sm, rg, ac, n) ==    \* folds over ws: sources map sm, registrations rg, active ac, source counter n
   IF ws = <<>> THEN <<sm, rg, ac, n>>
   ELSE LET w == ws[1] IN
-       IF sm[w] # 0 /\ G(w) \in snap THEN StartAll(Tail(ws), i, snap, s, sm, rg, ac, n)
+       IF sm[w] # 0 /\ G(w) \in snap /\ (FixLost => sm[w] \in rg) THEN StartAll(Tail(ws), i, snap, s, sm, rg, ac, n)
        ELSE StartAll(Tail(ws), i, snap, s, [sm EXCEPT ![w] = n + 1], rg \cup {n + 1}, ac \cup {G(w)}, n + 1)
 NewSrcs(ws, i, snap) == StartAll(ws, i, snap, 0, srcs[i], regs, active, nsrc)
 SW2(p) ==
@@ -154,18 +158,21 @@ SW2(p) ==
   /\ LET i == cI[p]
          ws == arg[p]
          snap == IF FixSnapshot THEN active ELSE aS[p]
-         need == \E w \in Range(ws) : ~(srcs[i][w] # 0 /\ G(w) \in aS[p])
+         need == \E w \in Range(ws) : ~(srcs[i][w] # 0 /\ G(w) \in aS[p] /\ (FixLost => srcs[i][w] \in regs))
          res == NewSrcs(ws, i, snap)
-     IN IF ~need THEN Log(H(p, "StartWatches", 2, op[p], Range(ws), "ok")) /\ UNCHANGED <<srcs, regs, active, nsrc, srcInst, srcWid, bad>>
+     IN IF ~need THEN /\ Log(H(p, "StartWatches", 2, op[p], Range(ws), "ok")) /\ UNCHANGED <<srcs, regs, active, nsrc, srcInst, srcWid>>
+                      /\ bad' = bad \cup (IF i \notin cancelled /\ \E w \in lost[p] : srcs[i][w] \notin regs THEN {"Reestablish.Lost"} ELSE {})
         ELSE IF FixStopped /\ i \in cancelled THEN Log(H(p, "StartWatches", 2, op[p], Range(ws), "err")) /\ UNCHANGED <<srcs, regs, active, nsrc, srcInst, srcWid, bad>>
         ELSE /\ res[4] <= MaxSrc
              /\ srcs' = [srcs EXCEPT ![i] = res[1]] /\ regs' = res[2] /\ active' = res[3] /\ nsrc' = res[4]
              /\ srcInst' = [s \in SrcIds |-> IF s > nsrc /\ s <= res[4] THEN i ELSE srcInst[s]]
              /\ srcWid' = [s \in SrcIds |-> IF s > nsrc /\ s <= res[4] THEN CHOOSE w \in Range(ws) : res[1][w] = s ELSE srcWid[s]]
              /\ Log(H(p, "StartWatches", 2, op[p], Range(ws), "ok"))
-             \* Reestablish: a watch whose informer was not active when the request began is live afterwards
+             \* Reestablish: a watch whose informer was not active when the request began is live afterwards ...
              /\ bad' = bad \cup (IF \E w \in Range(ws) : G(w) \notin aS[p] /\ ~(\E s \in res[2] : s > 0 /\ res[1][w] = s)
                                  THEN {"Reestablish"} ELSE {})
+                            \* ... and so is every watch that had no live handler when the request began
+                            \cup (IF \E w \in lost[p] : res[1][w] \notin res[2] THEN {"Reestablish.Lost"} ELSE {})
   /\ Done(p)
   /\ UNCHANGED <<ctl, ninst, cancelled, stopped, refs, drefs>> /\ UNCHANGED Locals
 
@@ -186,7 +193,7 @@ GC1(p, c) ==
   /\ Idle(p) /\ "GC" \in OpKinds
   /\ used' = [used EXCEPT ![p] = refs] /\ op' = [op EXCEPT ![p] = c]
   /\ pc' = [pc EXCEPT ![p] = "gc2"] /\ Log(H(p, "GC", 1, c, refs, ""))
-  /\ UNCHANGED Eng /\ UNCHANGED <<refs, drefs, bad, nops, cI, aS, run, arg>>
+  /\ UNCHANGED Eng /\ UNCHANGED <<refs, drefs, bad, nops, cI, aS, run, lost, arg>>
 \* ... ask the engine which watches run ...
 GC2(p) ==
   /\ pc[p] = "gc2"
@@ -194,7 +201,7 @@ GC2(p) ==
      IF i = 0 THEN Log(H(p, "GC", 2, op[p], {}, "err")) /\ Done(p) /\ UNCHANGED run
      ELSE /\ run' = [run EXCEPT ![p] = {w \in Wids : srcs[i][w] # 0}] /\ pc' = [pc EXCEPT ![p] = "gc3"] /\ UNCHANGED nops
           /\ Log(H(p, "GC", 2, op[p], {w \in Wids : srcs[i][w] # 0}, ""))
-  /\ UNCHANGED Eng /\ UNCHANGED <<refs, drefs, bad, cI, aS, used, op, arg>>
+  /\ UNCHANGED Eng /\ UNCHANGED <<refs, drefs, bad, cI, aS, used, lost, op, arg>>
 \* ... and stop those it believes unused.
 GcStops(p) == {w \in run[p] : w \notin used[p] /\ (FixGC => w \in Composed)}
 GC3(p) ==
@@ -214,7 +221,17 @@ RemoveInformer(p, g) ==
   /\ Idle(p) /\ "RemoveInformer" \in OpKinds /\ g \in active
   /\ active' = active \ {g} /\ regs' = {s \in regs : G(srcWid[s]) # g}
   /\ Log(H(p, "RemoveInformer", 1, "", {g}, "ok")) /\ Done(p)
-  /\ UNCHANGED <<ctl, ninst, srcs, nsrc, srcInst, srcWid, cancelled, stopped, refs, drefs, bad>> /\ UNCHANGED Locals
+  \* a start request in flight is not the "next start request" after this loss (the engine documents that race)
+  /\ lost' = [q \in Procs |-> {w \in lost[q] : G(w) # g}]
+  /\ UNCHANGED <<ctl, ninst, srcs, nsrc, srcInst, srcWid, cancelled, stopped, refs, drefs, bad>> /\ UNCHANGED <<cI, aS, used, run, op, arg>>
+
+\* A reconciler reads an object of kind g through the tracking cache (a cached Get / List): the informer of the kind is
+\* (re)started and counts as active from then on - without any event handler of the engine's watches on it.
+CachedRead(p, g) ==
+  /\ Idle(p) /\ "CachedRead" \in OpKinds
+  /\ active' = active \cup {g}
+  /\ Log(H(p, "CachedRead", 1, "", {g}, "ok")) /\ Done(p)
+  /\ UNCHANGED <<ctl, ninst, srcs, nsrc, srcInst, srcWid, regs, cancelled, stopped, refs, drefs, bad>> /\ UNCHANGED Locals
 
 \* Environment: the XRs' resource references change.
 ChangeRefs(p) ==
@@ -228,7 +245,7 @@ Other(p) ==
           \/ \E c \in Ctrls : Start(p, c) \/ Stop(p, c) \/ IsRunning(p, c) \/ GetWatches(p, c) \/ GC1(p, c)
                                \/ (\E ws \in SWSets : SW1(p, c, ws)) \/ (\E ws \in (SUBSET Wids) \ {{}} : StopWatches(p, c, ws))
           \/ SW2(p) \/ GC2(p) \/ GC3(p) \/ ChangeRefs(p)
-          \/ \E g \in Wids : RemoveInformer(p, g)
+          \/ \E g \in Wids : RemoveInformer(p, g) \/ CachedRead(p, g)
 Next == \E p \in Procs : (Other(p) /\ UNCHANGED nfail) \/ \E c \in Ctrls : StopFails(p, c)
 Spec == Init /\ [][Next]_vars
 
